@@ -57,6 +57,14 @@ def runOps (img : Image) (w : World) (ps3 : Bool) : List VOp → Nat → List St
   | [], _, acc => acc.reverse
   | op :: rest, cur, acc =>
     if op.kind == 'A' then
+      if op.off < 0 then
+        -- ReadAt refuses a negative offset before anything else (Checked.readAtC)
+        let s := match Checked.readAtC img (contentOf w) op.off op.n with
+          | .ok ([], true) => s!"0/err/{digest []}"
+          | .ok _ => "CHECKED-MISMATCH"
+          | .error _ => "MODEL-FAULT"
+        runOps img w ps3 rest cur (s :: acc)
+      else
       let (s, _) := readObs img w ps3 op.off.toNat op.n
       runOps img w ps3 rest cur (s :: acc)
     else if op.kind == 'R' then
